@@ -2,7 +2,7 @@
 (***************************************************************************)
 (* Conformance of the real high-level encoders with the encoder models     *)
 (* (spec -> code and code -> spec at once): harness/cmd/encdump enumerates  *)
-(* the state space of MC_PDFText / MC_AztecHL / MC_Code128 / MC_DM / MC_QREnc - every string   *)
+(* the state space of MC_PDFText / MC_AztecHL / MC_Code128 / MC_DM / MC_QREnc / MC_PDFDims - every string   *)
 (* up to a length bound over the model's representative alphabet - calls   *)
 (* the real pdf417.highlevelEncode / aztec.highlevelEncode /               *)
 (* code128.getCodeIndexList through the verif accessors and records what   *)
@@ -26,6 +26,7 @@ A == INSTANCE AztecHLEnc WITH BSFix <- TRUE
 C == INSTANCE Code128Enc
 D == INSTANCE DMEnc
 Q == INSTANCE QREnc
+PD == INSTANCE PDFDims
 
 Trace == ndJsonDeserialize("trace.ndjson")
 N == Len(Trace)
@@ -66,6 +67,14 @@ Tag(e) ==
               ELSE IF e.v \in 1..40 /\ Len(e.out) = 8 * Q!DataCW(e.v, e.p[1])
                       /\ LET p == Q!Parse(e.out, e.v, 0, <<>>, <<>>) IN p.ok /\ p.out = e.content
                    THEN "drift" ELSE "hl-wrong"
+    [] e.sym = "pdfdims" ->  \* the shape calcDimensions returns for m data codewords and k check codewords
+         LET d == PD!Choose(e.m, e.k)
+             acc == e.cols \in 2..30 /\ e.rows \in 2..30
+             pad == PD!PadCount(e.m, e.k, e.cols)
+         IN IF e.cols = d.cols /\ e.rows = d.rows THEN ""
+            ELSE IF acc # PD!Admissible(e.m, e.k) THEN "hl-wrong"
+            ELSE IF acc /\ ~(pad < e.cols /\ (e.m + 1 + e.k + pad = e.rows * e.cols \/ (e.rows = 2 /\ e.cols = 2 /\ e.m + 1 + e.k + pad <= 4))) THEN "hl-wrong"
+            ELSE "drift"
     [] OTHER -> "unknown-event"
 
 Step ==
